@@ -170,7 +170,7 @@ def run(ctx):
                        "single-byte mutations; every (range, length) with all values <= 12 plus the edge grid plus random "
                        "values of 4..64 bits. A case is non-trivial when it starts with 'bytes=' or is accepted; distinct = "
                        "distinct (input, implementation output) pairs.")
-    r = ctx.coq()
+    r = ctx.coq(imports=IMPORTS)
     if not r["ok"]:
         ctx.violation(dict(stage="coq", kind="proof obligation or audit failed", issues=r["issues"]), has_input=False)
     run_range(ctx)
